@@ -1069,6 +1069,39 @@ impl<'a> Ctx<'a> {
                     .max(p.parent_close.map(|c| c.1).unwrap_or(0));
                 prev_last_seq = prev_last_seq.max(last);
             }
+            // the document's limit ran out while scrut itself was waiting (`wait:`) and test cases
+            // were still to come: the document has to be reported as failed - a timeout somewhere
+            // in it - not as a run of skipped test cases
+            if let (Some(dl), false) = (dlimit, self.script_mode(main)) {
+                let deadline = t0.saturating_add(dl);
+                let last_seq_of_doc = pids.iter().map(|p| self.facts.procs[*p as usize].spawn_seq).max().unwrap_or(0);
+                // (only a wait of THIS document: before the next process of the run is started)
+                let next_spawn_seq = self.facts.procs.iter().map(|p| p.spawn_seq).filter(|s| *s > last_seq_of_doc).min().unwrap_or(u64::MAX);
+                let crossed = self.facts.sleeps.iter().any(|(seq, st, ns)| {
+                    *seq > last_seq_of_doc && *seq < next_spawn_seq && *st < deadline && st.saturating_add(*ns) >= deadline
+                });
+                // (and nothing else had stopped the document already)
+                let pending = j.stop.is_none() && j.tests.iter().any(|t| t.pid.is_none() && !t.detached);
+                let reported_timeout = match self.sc.tier {
+                    Tier::Lib => matches!(d.exec, ExecResult::Timeout { .. }),
+                    Tier::Cli => d.tests.iter().any(|t| t.report == Report::Timeout),
+                };
+                let have_report = match self.sc.tier {
+                    Tier::Lib => self.obs.sim_abort.is_none() && self.obs.panic.is_none(),
+                    Tier::Cli => !self.sc.pretty && self.sc.cli.command.is_none() && matches!(self.obs.exit_status, Some(0) | Some(50)) && self.obs.sim_abort.is_none(),
+                };
+                if crossed && pending && have_report && !reported_timeout && self.facts.fault_kinds.is_empty() {
+                    out.push(v(
+                        "C14",
+                        "timeout-not-reported",
+                        None,
+                        format!(
+                            "document {}: its limit of {}ns ran out at t={}ns while scrut was waiting and test cases were still to come, but no timeout is reported for it",
+                            main.path, dl, deadline
+                        ),
+                    ));
+                }
+            }
             let script = self.script_mode(main);
             if script {
                 // per-test limits are not available in single-script mode: refusing the document
